@@ -322,7 +322,7 @@ func (u *Unit) oblige(f *Frame, st *State, kind, text, goal string, pos token.Po
 	if goal == "true" {
 		return
 	}
-	if u.con != nil && u.con.Wiring && !u.con.Keep[kind] && !(f != nil && f.depth == 0 && u.con.KeepText[kind][text]) {
+	if u.con != nil && u.con.Wiring && !u.con.Keep[kind] && !(f != nil && f.depth == 0 && u.con.KeepText[kind][text]) && !(kind == "pre" && os.Getenv("GOVC_WIRING_PRE") != "") {
 		switch kind {
 		case "index", "nil", "slice", "divzero", "makeslice", "typeassert", "nilmap", "arith", "wrap", "pre", "panic", "guarded-read", "guarded-write", "unlock-unheld", "double-lock":
 			// wiring-only unit: memory safety of this function is not claimed
